@@ -279,6 +279,15 @@ theorem ss_run_refines (P : Policy) (hP : P.Sound) (ops : List SsOp) : ∀ (st :
     rw [← (ss_step_refines P op st).1]
     exact ih _ (ss_step_inv P hP op st h)
 
+theorem ss_outs_refine (P : Policy) (ops : List SsOp) : ∀ (st : SsSt),
+    ssOuts P ops st = ssSpecOuts ops (ssAbs st) := by
+  induction ops with
+  | nil => intro st; rfl
+  | cons op ops ih =>
+    intro st
+    simp only [ssOuts, ssSpecOuts]
+    rw [← (ss_step_refines P op st).1, ← (ss_step_refines P op st).2, ih]
+
 /-! ### StringView -/
 namespace ViewM
 
@@ -351,5 +360,14 @@ theorem sv_run_refines (ops : List SvOp) : ∀ (st : SvSt),
     simp only [svRun, svSpecRun]
     rw [← (sv_step_refines op st).1]
     exact ih _
+
+theorem sv_outs_refine (ops : List SvOp) : ∀ (st : SvSt),
+    svOuts ops st = svSpecOuts ops (svAbs st) := by
+  induction ops with
+  | nil => intro st; rfl
+  | cons op ops ih =>
+    intro st
+    simp only [svOuts, svSpecOuts]
+    rw [← (sv_step_refines op st).1, ← (sv_step_refines op st).2, ih]
 
 end Qentem.Seq
